@@ -848,6 +848,9 @@ key (PKCS#8): {}
 			("empty values", vec!["-o".into(), dir(b"d5"), "--common-name=".into(), "--organization-name=".into(), "--country-name=".into(), "--san=".into(), "--cert-file-name=".into()]),
 			("output directory is a file", vec!["-o".into(), "/dev/null".into()]),
 			("unknown option", vec!["--no-such-option".into()]),
+			("alternative names made of brackets", vec!["-o".into(), dir(b"d6"), "--san=[".into(), "--san=]".into(), "--san=[]".into(), "--san=[\u{e9}".into(), "--san=[::1".into(), "--san=::1]".into(), "--san=[[::1]]".into()]),
+			("alternative names of single odd characters", vec!["-o".into(), dir(b"d7"), "--san=.".into(), "--san=:".into(), "--san=%".into(), "--san=/".into(), "--san=\u{e9}".into()]),
+			("non-ASCII alternative names whose code points end in a 7-bit octet", vec!["-o".into(), dir(b"d8"), "--san=\u{43f}\u{440}\u{438}\u{43c}\u{435}\u{440}.example".into(), "--san=\u{142}\u{119}k.example".into(), "--san=\u{672c}.example".into()]),
 		];
 		for (what, args) in sets {
 			let out = std::process::Command::new(&cli).args(&args).env("RUST_BACKTRACE", "0").output();
@@ -861,6 +864,17 @@ key (PKCS#8): {}
 		}
 		let _ = std::fs::remove_dir_all(&base);
 		self.rep.exhaustive.push("the command-line tool on 10 option sets (paths and values that are not UTF-8, long, empty, a file as output directory, an unknown option): never exit status 101 / a signal / a panic message".into());
+	}
+
+	/// every subset of the nine key usages in a request (the BIT STRING has one or two octets and
+	/// 0..7 unused bits depending on the highest usage named)
+	pub fn csr_ku_subsets(&mut self) {
+		for mask in 1u32..512 {
+			let mut p = PCert::default_like();
+			p.ku = ALL_KU.iter().enumerate().filter(|(i, _)| mask & (1 << i) != 0).map(|(_, k)| k.clone()).collect();
+			self.csr(&p, &[], "ed25519");
+		}
+		self.rep.exhaustive.push("all 511 non-empty subsets of the nine key usages in a request".into());
 	}
 
 	/// caller attributes whose SET holds several values, in the order the caller wrote them
@@ -1828,6 +1842,13 @@ request: {}", what, hex(&der))),
 				let mut c = self.base_crl();
 				c.revoked = vec![PRevoked { serial: vec![1], time: d, reason: None, invalidity: Some(d) }];
 				self.crl(&c, 0);
+				// ... and each of the two times of an entry out of range while the other is fine
+				let fine = Dt::ymd(2024, 1, 1);
+				for (t, inv) in [(d, Some(fine)), (fine, Some(d)), (d, None)] {
+					let mut c = self.base_crl();
+					c.revoked = vec![PRevoked { serial: vec![2], time: fine, reason: None, invalidity: None }, PRevoked { serial: vec![1], time: t, reason: None, invalidity: inv }];
+					self.crl(&c, 0);
+				}
 			}
 		}
 		// random mixes of valid parameters with one malformed item
@@ -2013,6 +2034,7 @@ pub fn run(ctx: &mut Ctx, prop: &str) -> Report {
 			s.csr_refusal_sweep();
 			s.csr_attr_sweep();
 			s.csr_attr_multi_value_sweep();
+			s.csr_ku_subsets();
 			#[cfg(not(feature = "nocrypto"))]
 			s.csr_loaded_keys();
 			s.random_csrs(n(800, 30000));
@@ -2138,6 +2160,22 @@ impl<'a> Suite<'a> {
 		];
 		if let Some(c) = &ca {
 			der_seeds.push(("random-ca".into(), c.der().to_vec()));
+		}
+		// SubjectPublicKeyInfo structures of every algorithm identifier whose key bits are empty,
+		// one octet, or only the unused-bits octet
+		for (n, alg) in [
+			("ed25519", vec![0x30u8, 0x05, 0x06, 0x03, 0x2b, 0x65, 0x70]),
+			("p256", vec![0x30, 0x13, 0x06, 0x07, 0x2a, 0x86, 0x48, 0xce, 0x3d, 0x02, 0x01, 0x06, 0x08, 0x2a, 0x86, 0x48, 0xce, 0x3d, 0x03, 0x01, 0x07]),
+			("p384", vec![0x30, 0x10, 0x06, 0x07, 0x2a, 0x86, 0x48, 0xce, 0x3d, 0x02, 0x01, 0x06, 0x05, 0x2b, 0x81, 0x04, 0x00, 0x22]),
+			("p521", vec![0x30, 0x10, 0x06, 0x07, 0x2a, 0x86, 0x48, 0xce, 0x3d, 0x02, 0x01, 0x06, 0x05, 0x2b, 0x81, 0x04, 0x00, 0x23]),
+			("rsa", vec![0x30, 0x0d, 0x06, 0x09, 0x2a, 0x86, 0x48, 0x86, 0xf7, 0x0d, 0x01, 0x01, 0x01, 0x05, 0x00]),
+		] {
+			for (kn, bits) in [("no-key-bits", vec![0x03u8, 0x01, 0x00]), ("one-octet", vec![0x03, 0x02, 0x00, 0x04]), ("empty-bit-string", vec![0x03, 0x00]), ("two-octets", vec![0x03, 0x03, 0x00, 0x02, 0x01])] {
+				let body = [alg.clone(), bits].concat();
+				let mut v = vec![0x30, body.len() as u8];
+				v.extend(body);
+				der_seeds.push((format!("spki-{}-{}", n, kn), v));
+			}
 		}
 		for (n, d) in crate::props::c06::resigned_variants(&self.ctx.rsa_fixture.clone()) {
 			der_seeds.push((format!("resigned:{}", n), d));
